@@ -479,6 +479,8 @@ class WriterThread(threading.Thread):
         self.queue = queue.SimpleQueue()
         self.write_indexes = [i for i in INDEXES.values() if i.enabled]
         self.processing = False
+        # ids of the events queued for writing and not yet written
+        self.pending_ids = set()
 
     def run(self):
         env = self.env
@@ -525,6 +527,8 @@ class WriterThread(threading.Thread):
             except Exception:
                 log.exception("writer")
             finally:
+                if operation == "add":
+                    self.pending_ids.discard(args[0].id_bytes)
                 self.processing = False
 
     def _delete_event(self, txn, event: Event, log):
@@ -679,9 +683,13 @@ class LMDBStorage(BaseStorage):
         if not event.is_ephemeral:
             # the write happens later, in the writer thread: refuse now what it could not store
             check_storable(event)
+            # a duplicate is an event that is stored or still waiting for the writer
+            if event.id_bytes in self.writer_thread.pending_ids:
+                return event, False
             with self.db.begin(buffers=True) as txn:
                 if get_event_data(txn, event.id_bytes):
                     return event, False
+            self.writer_thread.pending_ids.add(event.id_bytes)
             self.writer_queue.put(("add", [event]))
         await self.post_save(event)
         return event, True
